@@ -86,7 +86,7 @@ func c10Ops() []c10Op {
 	var ops []c10Op
 
 	for i := 0; i < c10E; i++ {
-		for _, n := range []string{"Double", "Negate", "Identity", "Base", "Add(nil)", "Subtract(nil)", "Multiply(nil)", "=HashToGroup", "=EncodeToGroup", "=NewElement"} {
+		for _, n := range []string{"Double", "Negate", "Identity", "Base", "Add(nil)", "Subtract(nil)", "Multiply(nil)", "=HashToGroup", "=EncodeToGroup", "=HashToGroup(longDST)", "=NewElement"} {
 			ops = append(ops, c10Op{name: n, elem: true, i: i, j: i})
 		}
 
@@ -106,7 +106,7 @@ func c10Ops() []c10Op {
 	}
 
 	for i := 0; i < c10S; i++ {
-		for _, n := range []string{"Zero", "One", "MinusOne", "SetUInt64(3)", "SetSparse", "Square", "Invert", "Add(nil)", "Subtract(nil)", "Multiply(nil)", "Set(nil)", "=HashToScalar"} {
+		for _, n := range []string{"Zero", "One", "MinusOne", "SetUInt64(3)", "SetSparse", "Square", "Invert", "Add(nil)", "Subtract(nil)", "Multiply(nil)", "Set(nil)", "=HashToScalar", "=HashToScalar(longDST)"} {
 			ops = append(ops, c10Op{name: n, i: i, j: i})
 		}
 
@@ -211,7 +211,15 @@ var (
 
 func c10Hash() {
 	c10H2G, c10E2G, c10H2S = ref.HashToCurve(c10Msg, c10DST), ref.EncodeToCurve(c10Msg, c10DST), ref.HashToScalar(c10Msg, c10DST)
+	c10H2GLong, c10H2SLong = ref.HashToCurve(c10Msg, c10LongDST), ref.HashToScalar(c10Msg, c10LongDST)
 }
+
+// an oversize DST (300 bytes): hashing with it takes the extra reduction step of RFC 9380 5.3.3
+var (
+	c10LongDST = fill(300, 2)
+	c10H2GLong ref.Pt
+	c10H2SLong *big.Int
+)
 
 // c10Apply executes op from the concrete state on fresh variables and checks the C10 invariants for this one
 // transition. It returns the successor state and model.
@@ -265,6 +273,9 @@ func c10Apply(st c10State, m c10Model, o c10Op) (ns c10State, nm c10Model, key, 
 			case "=EncodeToGroup":
 				el[o.i] = secp256k1.EncodeToGroup(c10Msg, c10DST)
 				nm.e[o.i] = c10E2G
+			case "=HashToGroup(longDST)":
+				el[o.i] = secp256k1.HashToGroup(c10Msg, c10LongDST)
+				nm.e[o.i] = c10H2GLong
 			case "=NewElement":
 				el[o.i] = secp256k1.NewElement()
 				nm.e[o.i] = ref.Infinity()
@@ -358,6 +369,9 @@ func c10Apply(st c10State, m c10Model, o c10Op) (ns c10State, nm c10Model, key, 
 		case "=HashToScalar":
 			sc[o.i] = secp256k1.HashToScalar(c10Msg, c10DST)
 			nm.s[o.i] = c10H2S
+		case "=HashToScalar(longDST)":
+			sc[o.i] = secp256k1.HashToScalar(c10Msg, c10LongDST)
+			nm.s[o.i] = c10H2SLong
 		case "Set":
 			r.Set(a)
 			nm.s[o.i] = m.s[o.j]
